@@ -376,6 +376,85 @@ func c18Sequential(c *core.Ctx) {
 			}
 		}
 	})
+	// what a call returned belongs to the caller: after the caller has overwritten every slice
+	// element of a decoded packet (and of a Marshal result), the same calls on separately owned
+	// inputs must still give what they gave the first time. A result that shares memory with a
+	// package-level cache, a pooled buffer or another result does not survive this.
+	c.Section("caller-owned-results", c.N(60000, 3000000), func(cs *core.Case) {
+		r := cs.R
+		k := gen.Kind(cs.Idx % uint64(gen.NumKinds))
+		v := gen.Packet(r, k, gen.Opts{Small: true, NoBig: true, AllowKF: r.Chance(1, 4)})
+		e, err := ref.Encode(v, ref.Lib)
+		if err != nil {
+			return
+		}
+		in := e.B
+		dec := func() (rtcp.Packet, []rtcp.Packet, string) {
+			own := gen.New(k)
+			var oerr, uerr error
+			var ps []rtcp.Packet
+			if pan, val, st := core.Guard(func() {
+				oerr = own.Unmarshal(cloneBytes(in))
+				ps, uerr = rtcp.Unmarshal(cloneBytes(in))
+			}); pan {
+				return nil, nil, fmt.Sprintf("%v\n%s", val, st)
+			}
+			if oerr != nil {
+				own = nil
+			}
+			if uerr != nil {
+				ps = nil
+			}
+			return own, ps, ""
+		}
+		own1, ps1, pan := dec()
+		if pan != "" || (own1 == nil && ps1 == nil) {
+			return
+		}
+		wantOwn, wantPs := mon.Dump(own1), mon.Dump(ps1)
+		var m1 []byte
+		var merr error
+		core.Guard(func() { m1, merr = v.Marshal() })
+		wantM := append([]byte(nil), m1...)
+		// the caller writes into everything it was given
+		written := mon.Scribble(own1)
+		for _, p := range ps1 {
+			written += mon.Scribble(p)
+		}
+		if k == gen.Raw {
+			merr = fmt.Errorf("not judged") // RawPacket.Marshal returns the packet's own octets: writing into them is writing into the packet
+		} else {
+			for i := range m1 {
+				m1[i] = m1[i]*167 + 13
+			}
+		}
+		own2, ps2, pan2 := dec()
+		cs.Eval(4)
+		cs.Count("caller-owned/" + k.String())
+		cs.Distinct(core.Digest([]byte("own"), in))
+		cs.Max("scalars_overwritten_per_case", float64(written+len(m1)), k.String())
+		det := func(extra core.W) func() core.W {
+			return func() core.W {
+				d := core.W{"type": k.String(), "datagram_hex": mon.Hex(in, 200), "scalars_overwritten_in_first_results": written}
+				for kk, vv := range extra {
+					d[kk] = vv
+				}
+				return d
+			}
+		}
+		if pan2 != "" {
+			cs.Fail("panic/Unmarshal", det(core.W{"panic": pan2})())
+			return
+		}
+		cs.Check(mon.Dump(own2) == wantOwn, "history/decode-after-caller-wrote-into-earlier-result/own/"+k.String(), det(core.W{"first": wantOwn, "second": mon.Dump(own2)}))
+		cs.Check(mon.Dump(ps2) == wantPs, "history/decode-after-caller-wrote-into-earlier-result/datagram/"+k.String(), det(core.W{"first": wantPs, "second": mon.Dump(ps2)}))
+		if merr == nil {
+			var m2 []byte
+			var merr2 error
+			core.Guard(func() { m2, merr2 = v.Marshal() })
+			cs.Check(merr2 == nil && bytes.Equal(m2, wantM), "history/marshal-after-caller-wrote-into-earlier-result/"+k.String(), det(core.W{"first_hex": mon.Hex(wantM, 200), "second_hex": mon.Hex(m2, 200), "error": errStr(merr2)}))
+		}
+	})
 	c.Section("histories", c.N(40000, 2000000), func(cs *core.Case) {
 		r := cs.R
 		n := 1 + r.Intn(4)
